@@ -1716,6 +1716,16 @@ func stepCandidate(r *raft, m *pb.Message) error {
 		case quorum.VoteWon:
 			if r.state == StatePreCandidate {
 				r.campaign(campaignElection)
+			} else if !r.trk.Votes[r.id] {
+				// The votes of our peers already form a quorum, but our own
+				// vote - and with it the term we are campaigning in - has not
+				// been persisted yet (the self-addressed MsgVoteResp is only
+				// delivered once it is). Leading now would mean acting in a term
+				// that a crash can still erase: the node would restart in the
+				// old term, campaign for this one again and could lead it a
+				// second time with a different log. Wait for our own vote; its
+				// delivery re-evaluates the tally.
+				r.logger.Infof("%x has a quorum of votes at term %d but its own vote is not durable yet", r.id, r.Term)
 			} else {
 				r.becomeLeader()
 				r.bcastAppend()
